@@ -16,7 +16,7 @@ def main():
     results = json.load(open(resf)) if os.path.exists(resf) else {}
     assert sh('git -C /repo status --porcelain').stdout.strip() == '', '/repo is not clean'
     props = [f'C{i:02d}' for i in range(1, 21)]
-    for d in sorted(glob.glob('/verif/seeded/benign/[WXY]*-*')):
+    for d in sorted(glob.glob('/verif/seeded/benign/[WXYZ]*-*')):
         name = os.path.basename(d)
         if names and name not in names:
             continue
@@ -27,7 +27,26 @@ def main():
             t = sh('cd /repo && cargo test --workspace --offline 2>&1 | grep -E "^test result|^error"')
             tests_ok = 'FAILED' not in t.stdout and 'error' not in t.stdout and 'test result' in t.stdout
             r = {'tests_pass': tests_ok, 'checks': {}}
+            # checks whose inputs the patch cannot reach are skipped (recorded as such): C20 reads only the bindings
+            # package; a patch confined to the treasury reaches only C12, C13, C16 and C18; one confined to the
+            # bindings package reaches only C19 (miniwasm backend) and C20
+            touched = set(l.split()[-1][2:] for l in open(f'{d}/patch.diff') if l.startswith('+++ b/'))
+            t_pkg = any(x.startswith('packages/initia-proto') for x in touched)
+            t_tre = any(x.startswith('contracts/treasury') for x in touched)
+            t_other = any(not x.startswith('packages/initia-proto') and not x.startswith('contracts/treasury') for x in touched)
+            def relevant(p):
+                if t_other:
+                    return (p != 'C20' or t_pkg) and (p != 'C13' or t_tre)
+                rel = set()
+                if t_tre:
+                    rel |= {'C12', 'C13', 'C16', 'C18'}
+                if t_pkg:
+                    rel |= {'C19', 'C20'}
+                return p in rel
             for p in props:
+                if not relevant(p):
+                    r['checks'][p] = {'exit': 0, 'first': 'skipped: the patch does not touch any input of this check'}
+                    continue
                 c = sh(f'cd /verif && VERIF_EVIDENCE_DIR=/tmp/ev ./check {p} quick')
                 lines = c.stdout.split('\n')
                 vi = [i for i, l in enumerate(lines) if l.startswith('VIOLATION') or 'BUILD FAILED' in l or 'HARNESS-ERROR' in l or 'INCONCLUSIVE' in l]
